@@ -86,3 +86,23 @@ Theorem C10_model_satisfies_oracle : forall sc,
   oracle_C10 sc (run_case sc) = true.
 Proof. exact oracle_C10_model. Qed.
 Print Assumptions C10_model_satisfies_oracle.
+
+(* the limit does not depend on the transport: behind an SSLRequest — inside the TLS session when the server has
+   certificates, on the same plaintext connection when it has none — the connection is served by the very same
+   configuration [c], hence under the very same limit, as a connection that starts with that byte stream *)
+Theorem C10_same_limit_behind_sslrequest : forall c raw a r,
+  start c raw = Some (version_ssl, a, r) ->
+  (cfg_tls c = true -> forall plain v2 a2 r2 tls', start c plain = Some (v2, a2, r2) -> v2 <> version_ssl ->
+     serve c raw (Some plain) = RawOut x53 :: serve c plain tls') /\
+  (cfg_tls c = false -> forall tls tls' v2 a2 r2, start c r = Some (v2, a2, r2) -> v2 <> version_ssl ->
+     serve c raw tls = RawOut x4e :: serve c r tls').
+Proof.
+  intros c raw a r S. split.
+  - intros T plain v2 a2 r2 tls' S2 N. unfold serve at 1. rewrite S, T. cbn [Z.eqb]. f_equal.
+    unfold serve. rewrite S2. destruct (Z.eqb_spec v2 version_cancel); [reflexivity|].
+    destruct (Z.eqb_spec v2 version_ssl); [contradiction|reflexivity].
+  - intros T tls tls' v2 a2 r2 S2 N. unfold serve at 1. rewrite S, T. cbn [Z.eqb]. f_equal.
+    unfold serve. rewrite S2. destruct (Z.eqb_spec v2 version_cancel); [reflexivity|].
+    destruct (Z.eqb_spec v2 version_ssl); [contradiction|reflexivity].
+Qed.
+Print Assumptions C10_same_limit_behind_sslrequest.
